@@ -83,7 +83,7 @@ func c11Type1(c *h.Ctx, n int) {
 	for i := 0; i < n+len(bnd); i++ {
 		sk, _ := oprf.DeriveKey(oprf.SuiteP384, oprf.VerifiableMode, rnd(c, 32), nil)
 		iss := type1.NewBasicPrivateIssuer(sk)
-		chal, nonce := rnd(c, c.Rng.Intn(80)), rnd(c, 32)
+		chal, nonce := c11Challenge(c), rnd(c, 32)
 		kid := iss.TokenKeyID()
 		b1, b2 := scalarBytes(c, group.P384), scalarBytes(c, group.P384)
 		if i >= n {
@@ -253,8 +253,11 @@ func c11Type5(c *h.Ctx, n int) {
 	for i := 0; i < n+len(bnd); i++ {
 		sk, _ := oprf.DeriveKey(oprf.SuiteRistretto255, oprf.VerifiableMode, rnd(c, 32), nil)
 		iss := type5.NewBatchedPrivateIssuer(sk)
-		chal := rnd(c, c.Rng.Intn(80))
+		chal := c11Challenge(c)
 		k := 1 + c.Rng.Intn(4)
+		if i%3 == 2 {
+			k = 3 + c.Rng.Intn(3)
+		}
 		var nonces, bl1, bl2 [][]byte
 		for j := 0; j < k; j++ {
 			nonces = append(nonces, rnd(c, 32))
@@ -281,7 +284,25 @@ func c11Type5(c *h.Ctx, n int) {
 		for j := range bl2 {
 			blB = append(blB, clone(bl2[j]))
 		}
+		var windowBuf, windowBlinds []byte
+		if i%3 == 2 { // the caller cut nonces and blinds out of ONE buffer each: every slice has the next ones in its spare capacity
+			windowBuf, windowBlinds = cat(nonces...), cat(bl2...)
+			for j := range nonces {
+				noncesB[j] = windowBuf[32*j : 32*j+32]
+				blB[j] = windowBlinds[32*j : 32*j+32]
+			}
+		}
 		sB, errB := client.CreateTokenRequestWithBlinds(chalB, noncesB, kidB, iss.TokenKey(), blB)
+		if windowBuf != nil && errB == nil {
+			var nc, bc [][]byte
+			for j := range nonces {
+				nc, bc = append(nc, clone(nonces[j])), append(bc, clone(bl2[j]))
+			}
+			sB2, errB2 := client.CreateTokenRequestWithBlinds(clone(chal), nc, clone(kid), iss.TokenKey(), bc)
+			if errB2 != nil || !bytes.Equal(sB.Request().Marshal(), sB2.Request().Marshal()) || !bytes.Equal(windowBuf, cat(nonces...)) || !bytes.Equal(windowBlinds, cat(bl2...)) {
+				c.Violation("request creation is a function of the VALUES of its arguments (nonces and blinds cut from one buffer vs allocated one by one) and leaves them alone", det)
+			}
+		}
 		if i%2 == 1 { // the caller overwrites its buffers once the request exists
 			scribble(chalB, kidB)
 			scribble(noncesB...)
@@ -339,7 +360,7 @@ func c11Type2(c *h.Ctx, n int) {
 	for i := 0; i < n; i++ {
 		key := rsaKey(i)
 		iss := type2.NewBasicPublicIssuer(key)
-		chal, nonce, salt := rnd(c, c.Rng.Intn(80)), rnd(c, 32), rnd(c, 48)
+		chal, nonce, salt := c11Challenge(c), rnd(c, 32), rnd(c, 48)
 		kid := iss.TokenKeyID()
 		b1, b2 := rsaBlind(c, key.N), rsaBlind(c, key.N)
 		switch i % 6 { // blinds at the edges of the range of units: 1, n - 1; and structured ones (multiples of 2^64, powers of two)
@@ -611,4 +632,22 @@ func runC11(c *h.Ctx) {
 func sha256Bytes(b []byte) []byte {
 	s := sha256.Sum256(b)
 	return s[:]
+}
+
+// c11Challenge: the challenge is an opaque byte string to the client — random bytes, a well-formed TokenChallenge
+// structure, and a well-formed structure FOLLOWED BY more bytes (or cut short) must all enter the context as they are.
+func c11Challenge(c *h.Ctx) []byte {
+	tc := tokens.TokenChallenge{TokenType: uint16(1 + c.Rng.Intn(5)), IssuerName: "issuer.example", RedemptionNonce: rnd(c, 32), OriginInfo: []string{"origin.example", "b.example"}[:c.Rng.Intn(3)]}
+	switch c.Rng.Intn(5) {
+	case 0:
+		return tc.Marshal()
+	case 1:
+		return cat(tc.Marshal(), rnd(c, 1+c.Rng.Intn(9)))
+	case 2:
+		m := tc.Marshal()
+		return m[:len(m)-1-c.Rng.Intn(4)]
+	case 3:
+		return cat(tc.Marshal(), []byte{0})
+	}
+	return rnd(c, c.Rng.Intn(80))
 }
